@@ -23,6 +23,7 @@ LEAVES = {}                 # id(node) -> (leaf_ast, parity, xs, holds)   filled
 LEAF_MISMATCHES = []        # per-case
 RETRIEVE_EVENTS = []        # per-case: 'exact' | 'known_deviation' | 'other_deviation'
 FORCE_DEDUP_OFF = False
+FORCE_SPEC_RETRIEVE = False  # counterfactual for K05: retrieve answers exactly what C20 specifies (removes K20 only)
 _LINES = set()
 _PKG_DIR = None
 _KEEP = []                  # keep registered nodes alive so id() stays unique within a case
@@ -34,8 +35,9 @@ def begin_case():
     _KEEP.clear()
     LEAF_MISMATCHES.clear()
     RETRIEVE_EVENTS.clear()
-    global FORCE_DEDUP_OFF
+    global FORCE_DEDUP_OFF, FORCE_SPEC_RETRIEVE
     FORCE_DEDUP_OFF = False
+    FORCE_SPEC_RETRIEVE = False
 
 
 def end_case():
@@ -180,6 +182,36 @@ def spec_walk(cache_obj, assignment):
     return Counter(out)
 
 
+def spec_entries(cache_obj, assignment):
+    """Like spec_walk but returns the real (merged binding, stored output) pairs (used by the K05 counterfactual)."""
+    from entity_query_language.cache_data import CacheDict
+    from entity_query_language.utils import All
+    keys = cache_obj.keys
+    out = []
+
+    def rec(node, idx, res):
+        if idx == len(keys):
+            out.append((res, node))
+            return
+        if not isinstance(node, CacheDict):
+            return
+        k = keys[idx]
+        for ck, cv in list(node.items()):
+            if ck is All:
+                rec(cv, idx + 1, res)
+            elif k in assignment:
+                if assignment[k] == ck:
+                    rec(cv, idx + 1, res)
+            else:
+                r = dict(res)
+                r[k] = ck
+                rec(cv, idx + 1, r)
+
+    if keys:
+        rec(cache_obj.cache, 0, dict(assignment))
+    return out
+
+
 def deviation_walk(cache_obj, assignment):
     """Executable model of known finding K20: at a level whose key the lookup binds a concrete child hides the
     wildcard child, at an unbound level a wildcard child hides the concrete ones."""
@@ -242,7 +274,12 @@ def _attach_cache():
         return o_insert(self, assignment, output, index=index)
 
     def retrieve(self, assignment=None, cache=None, key_idx=0, result=None, from_index=True):
-        if cache is None and from_index and assignment is not None and self.keys:
+        if cache is None and from_index and assignment is not None and self.keys and FORCE_SPEC_RETRIEVE:
+            COUNTS["cache.retrieve.forced_spec"] += 1
+            self.enter_count += 1
+            for r, o in spec_entries(self, assignment):
+                yield dict(r), o
+        elif cache is None and from_index and assignment is not None and self.keys:
             exp = spec_walk(self, assignment)
             dev = deviation_walk(self, assignment)
             got = []
